@@ -606,17 +606,22 @@ int main(int argc, char **argv) {
       ++per_kind[kind_name(op.k)];
       digests[r.digest] = 1;
       if (r.key_before != strip_probe(keys[cur])) {
-        nondet = "prefix replay diverged at state " + keys[cur];
+        nondet = "prefix replay diverged at state " + keys[cur] + " via " + hist_str(h);
         break;
       }
       if (samples.size() < 6 && (transitions % 4999) == 1) samples.push_back(hist_str(h) + " | " + op_str(op) + " -> " + r.key_after);
       if (r.nfail) {
         ++viol_total;
-        std::string sig = std::string(kind_name(op.k)) + "|" + vf::L().fails[0].tags + "|" + vf::L().fails[0].msg;
-        std::string norm;
-        for (char c : sig) norm += (c >= '0' && c <= '9') ? '#' : c;
-        if (viol_sigs.emplace(norm, 1).second && viols.size() < 200)
-          viols.push_back(VRec{vf::L().fails[0].tags, vf::L().fails[0].msg, hist_str(h), op_str(op), keys[cur]});
+        std::string tags_seen;  // the first failure of every distinct tag set (an early one must not hide a later one)
+        for (int f = 0; f < vf::L().nfail; ++f) {
+          if (tags_seen.find(std::string("|") + vf::L().fails[f].tags + "|") != std::string::npos) continue;
+          tags_seen += std::string("|") + vf::L().fails[f].tags + "|";
+          std::string sig = std::string(kind_name(op.k)) + "|" + vf::L().fails[f].tags + "|" + vf::L().fails[f].msg;
+          std::string norm;
+          for (char c : sig) norm += (c >= '0' && c <= '9') ? '#' : c;
+          if (viol_sigs.emplace(norm, 1).second && viols.size() < 200)
+            viols.push_back(VRec{vf::L().fails[f].tags, vf::L().fails[f].msg, hist_str(h), op_str(op), keys[cur]});
+        }
         if (failure_is_fatal()) continue;
       }
       {
